@@ -41,7 +41,10 @@ SCRIPT = textwrap.dedent(
         cyc = [plan.call(mk(f"cyc{i}"), *(pre[-1:] if i == 0 else [])) for i in range(cycle_len)]
         for i in range(cycle_len):
             a, b = cyc[i], cyc[(i + 1) % cycle_len]
-            if edge == "dep" or cycle_len == 1: plan.add_dependency(a, b)
+            if edge == "lit":
+                # the cycle runs through a barrier literal that is nobody's argument (the kind prune_plan replaces by direct dependencies)
+                l = plan.lit(("barrier", i)); plan.add_dependency(a, l); plan.add_dependency(l, b)
+            elif edge == "dep" or cycle_len == 1: plan.add_dependency(a, b)
             else:
                 from uberjob.graph import PositionalArg
                 plan.graph.add_edge(a, b, PositionalArg(len(list(plan.graph.in_edges(b)))))
@@ -80,7 +83,7 @@ SCRIPT = textwrap.dedent(
 
     n = 0
     for cycle_len, edge, prefix, reg_kind, workers, sched, dry in itertools.product(
-            (1, 2, 3), ("dep", "arg"), (0, 2), ("none", "empty", "stored-on-cycle", "stored-downstream", "stored-upstream"), (1, 3), ("default", "random"), (False, True)):
+            (1, 2, 3), ("dep", "arg", "lit"), (0, 2), ("none", "empty", "stored-on-cycle", "stored-downstream", "stored-upstream"), (1, 3), ("default", "random"), (False, True)):
         if edge == "arg" and cycle_len == 1: continue
         one(cycle_len, edge, prefix, reg_kind, workers, sched, dry); n += 1
         if len(problems) >= 5: break
